@@ -323,6 +323,14 @@ class Parser:
 
         self.process_statement()
 
+        if self.new_statement and final_line and self.statement:
+            # the line that closed the previous statement is a complete
+            # statement itself: parse it now, not when the next one starts
+            self.new_statement = False
+            self.statement = self.statement[:-1]
+            self.set_default_flags_in_lexer()
+            self.process_statement()
+
     def process_statement(self) -> None:
         if self.statement and (not self.set_line or self.new_statement):
             # (a SET line that closes a statement without ';' does not hold it back)
